@@ -16,17 +16,18 @@ import (
 )
 
 type runConfig struct {
-	workers   int
-	maxPaths  int
-	maxSteps  int64
-	loopCap   int
-	timeoutMs int
-	known     map[string]bool
-	params    map[string]int
-	samples   int
-	solverBin string
-	deadline  time.Time
-	dumpDir   string
+	workers       int
+	maxPaths      int
+	maxSteps      int64
+	loopCap       int
+	timeoutMs     int
+	known         map[string]bool
+	params        map[string]int
+	samples       int
+	solverBin     string
+	deadline      time.Time
+	dumpDir       string
+	allViolations bool
 }
 
 type pathResult struct {
@@ -292,6 +293,9 @@ func (m *machine) runHarness(pkgPath, fname string, cfg *runConfig) *harnessResu
 				}
 				for _, v := range res.violations {
 					key := v.Kind + "|" + v.Label
+					if cfg.allViolations {
+						key += fmt.Sprint(len(hr.Violations))
+					}
 					if !vioSeen[key] {
 						vioSeen[key] = true
 						hr.Violations = append(hr.Violations, v)
